@@ -221,6 +221,48 @@ def _uses_of_def(ana, fi, dnode, name):
     return out
 
 
+def _parent_map(fnode):
+    pm = {}
+    for n in ast.walk(fnode):
+        for ch in ast.iter_child_nodes(n):
+            pm[id(ch)] = n
+    return pm
+
+
+def _value_sinks_ok(ana, fi, expr, pm, depth=0) -> Tuple[bool, str]:
+    """The value of `expr` (a read) may only flow, through plain copies, into pool-size arguments or logging calls."""
+    from .c20 import POOL_CTORS, pool_factories
+    facts = pool_factories(ana)
+    if depth > 6:
+        return False, "copy chain too long"
+    par = pm.get(id(expr))
+    # skip keyword wrapper
+    if isinstance(par, ast.keyword):
+        kwnode = par
+        par = pm.get(id(par))
+    else:
+        kwnode = None
+    if isinstance(par, ast.Call) and (expr in par.args or kwnode is not None):
+        c = ana.res.callee(fi, par)
+        nm = c.func.qualname if c.func is not None else str(c.target)
+        if nm in facts or nm in POOL_CTORS:
+            return True, ""
+        if ana.is_logging_call(fi, par):
+            return True, ""
+        return False, f"passed to {nm}"
+    if isinstance(par, (ast.Assign, ast.AnnAssign)) and par.value is expr:
+        tgt = par.targets[0] if isinstance(par, ast.Assign) else par.target
+        if isinstance(tgt, ast.Name):
+            cfg = ana.cfg(fi)
+            dnode = cfg.stmt_node.get(id(par))
+            for u, _at in _uses_of_def(ana, fi, dnode, tgt.id):
+                ok, why = _value_sinks_ok(ana, fi, u, pm, depth + 1)
+                if not ok:
+                    return False, why
+            return True, ""
+    return False, f"used in `{unparse(par, 50) if par is not None else '?'}`"
+
+
 @rule("C14", "R3", "CENSUS", "worker count and the environment switch reach Pool(processes=...) and nothing else", floor=2)
 def r3(ctx):
     ana = ctx.ana
@@ -230,22 +272,16 @@ def r3(ctx):
     for fi, node in reads:
         if fi.qualname.startswith(ua_print):
             continue  # printing / copying inside the container class
-        # the read must be an argument of a pool factory / constructor
-        from .c20 import POOL_CTORS, pool_factories
-        facts = pool_factories(ana)
-        parent_ok = False
-        for cs in ana.res.calls(fi):
-            if isinstance(cs.node, ast.Call) and not cs.indirect:
-                nm = callee_fq(cs)
-                if (nm in facts or nm in POOL_CTORS) and any(node in list(ast.walk(a)) for a in list(cs.node.args) + [k.value for k in cs.node.keywords]):
-                    parent_ok = True
-        if ctx.check(parent_ok, fi, "arguments.num_processors is read only to size the pool", line=node.lineno,
-                     role=f"num_processors@{short(fi.qualname)}", expected="argument of the pool factory / Pool(processes=)",
-                     found=unparse(node)):
+        pm = _parent_map(fi.node)
+        ok, why = _value_sinks_ok(ana, fi, node, pm)
+        if ctx.check(ok, fi, "arguments.num_processors is read only to size the pool", line=node.lineno,
+                     role=f"num_processors@{short(fi.qualname)}", expected="argument of the pool factory / Pool(processes=), possibly via a temporary",
+                     found=why):
             sinks += 1
     if sinks == 0:
         ctx.note("num_processors is never used to size a pool")
     # environment reads
+    from .c20 import POOL_CTORS
     env_reads = []
     for fi in ana.prog.functions.values():
         for n in Resolver.walk_own(fi.node):
@@ -256,27 +292,26 @@ def r3(ctx):
                 r = ana.res.fq_of_expr(fi, n.func)
                 if r and r[1] in ("os.getenv",):
                     env_reads.append((fi, n))
-    # module-level environment reads
-    for mi in ana.prog.modules.values():
-        for n in ast.walk(mi.tree):
-            pass
     for fi, n in env_reads:
-        # the value read may only steer num_processes of the pool factory
+        # the value read may only steer the pool size chosen by this function
         cfg = ana.cfg(fi)
         st_node = cfg.node_of(n)
         st = st_node.ast
         ok = False
         detail = ""
-        if isinstance(st, ast.Assign) and len(st.targets) == 1 and isinstance(st.targets[0], ast.Name):
-            v = st.targets[0].id
+        from .common import def_target
+        v = def_target(st_node)
+        if v is not None:
             uses = _uses_of_def(ana, fi, st_node, v)
             ok = True
+            tests = {}
             for u, at in uses:
-                if at.kind != "test":
+                if at.kind == "test":
+                    tests[at.id] = at
+                else:
                     ok = False
                     detail = f"`{v}` used at line {u.lineno} outside a branch test"
-            # statements controlled by those tests may only assign the process count / log
-            tests = {at.id: at for _u, at in uses if at.kind == "test"}
+            # statements controlled by those tests may only choose the pool size, log, or return a pool
             for t in tests.values():
                 for sub in ast.walk(t.ast):
                     if sub is t.ast:
@@ -286,12 +321,24 @@ def r3(ctx):
                         if not (isinstance(tg, ast.Name) and _only_feeds_pool_size(ana, fi, tg.id)):
                             ok = False
                             detail = f"branch on the switch assigns `{unparse(tg)}` (line {sub.lineno}), which is not just the pool size"
-                    elif isinstance(sub, (ast.Return, ast.Raise)):
+                    elif isinstance(sub, ast.Return):
+                        rv = sub.value
+                        c = ana.res.callee(fi, rv) if isinstance(rv, ast.Call) else None
+                        if not (c is not None and str(c.target) in POOL_CTORS):
+                            ok = False
+                            detail = f"branch on the switch returns `{unparse(rv, 40)}` (line {sub.lineno})"
+                    elif isinstance(sub, ast.Raise):
                         ok = False
-                        detail = f"branch on the switch changes control flow at line {sub.lineno}"
+                        detail = f"branch on the switch raises at line {sub.lineno}"
                     elif isinstance(sub, ast.Expr) and isinstance(sub.value, ast.Call) and not ana.is_logging_call(fi, sub.value):
                         ok = False
                         detail = f"branch on the switch calls {unparse(sub.value.func)} (line {sub.lineno})"
+            # every return of the function is a pool constructor call (the switch can only change its size)
+            for r_ in [x for x in Resolver.walk_own(fi.node) if isinstance(x, ast.Return)]:
+                c = ana.res.callee(fi, r_.value) if isinstance(r_.value, ast.Call) else None
+                if not (c is not None and str(c.target) in POOL_CTORS):
+                    ok = False
+                    detail = f"the function returns `{unparse(r_.value, 40)}`, not a pool"
         else:
             detail = "environment value not bound to a local tested only for the pool size"
         ctx.check(ok, fi, "the environment switch only selects the pool size", line=n.lineno,
